@@ -195,6 +195,11 @@ func (r *Reader) Read(p []byte) (n int, err error) {
 		return 0, r.fire()
 	}
 	if r.pos >= len(r.doc) {
+		// zero-length reads planned right behind the last byte are delivered before the end is announced
+		if r.step < len(r.plan.Chunks) && r.plan.Chunks[r.step] == 0 {
+			r.step++
+			return 0, nil
+		}
 		return 0, io.EOF
 	}
 	// how much this call may deliver
